@@ -95,6 +95,12 @@ THEOREMS = {
            [("Eav.Props.C13", "Eav.Props.C13.isEmail_outcome"), ("Eav.Props.C13", "Eav.Props.C13.free_releases"), ("Eav.Props.C06", "Eav.Props.C06.step_isEmail_ok")],
 }
 
+# the model's functions are pure: that the code keeps no state between calls (no object with static or thread-local storage in a writable
+# section of any object file, EAV_EXTRA and all back ends included) is an obligation of EVERY property, re-read from the objects on every run
+for _p in THEOREMS:
+    if (TIE_MODULE["no_mutable_globals"], GENTIE + ".no_mutable_globals") not in THEOREMS[_p]:
+        THEOREMS[_p] = THEOREMS[_p] + _gt("no_mutable_globals")
+
 TRUSTED = [
     "Lean 4.33 kernel; axioms limited to propext, Classical.choice, Quot.sound (audited with #print axioms on every run); no sorry/admit/native_decide/bv_decide/own axioms (grepped on every run)",
     "tools/extract.py + harness/dump.c: that Eav/Gen/*.lean equals the enums, tables, initialisers, case lists, Makefile defaults and symbol tables of the tree it was run on",
@@ -102,6 +108,11 @@ TRUSTED = [
     "the statements in lean/Eav/Props and the specifications in lean/Eav/Spec, to be read against the property text",
     "clang 14 / ASan / UBSan / LSan; libidn2 2.3.3 as the IDN oracle (its answers are recorded and replayed into the model); the \"C\" locale for <ctype.h> and strncasecmp",
 ]
+
+
+def cvhex(tok):
+    """output field of a recorded conversion: `=` is the empty string (`-` is no buffer at all)"""
+    return b"" if tok == "=" else bytes.fromhex(tok)
 
 
 def imports_of(module):
@@ -356,14 +367,17 @@ VARIANTS_OF = {
     "C02": {"quick": ["default", "uchar"], "thorough": ["default", "uchar"]},
     "C03": {"quick": ["default", "uchar"], "thorough": ["default", "uchar"]},
     "C04": {"quick": ["default", "underscore"], "thorough": ["default", "underscore"]},
-    "C05": {"quick": ["default", "be:idnkit"], "thorough": ["default", "be:idnkit"]},
-    "C09": {"quick": ["default", "ndebug"], "thorough": ["default", "ndebug"]},
+    "C05": {"quick": ["default", "be:idnkit", "uchar"], "thorough": ["default", "be:idnkit", "uchar"]},
+    "C09": {"quick": ["default", "ndebug", "underscore"], "thorough": ["default", "ndebug", "underscore"]},
     "C13": {"quick": ["default", "be:idnkit", "be:idnkit+extra"], "thorough": ["default", "be:idnkit", "be:idn", "be:idnkit+extra", "be:idn+extra", "extra"]},
     "C15": {"quick": ["default", "be:idn"], "thorough": ["default", "be:idn", "be:idnkit"]},
     "C07": {"quick": ["default", "underscore", "be:idn"], "thorough": ["default", "underscore", "be:idn", "be:idnkit"]},
     "C16": {"quick": ["default", "extra", "be:idnkit+extra"], "thorough": ["default", "extra", "be:idnkit+extra", "be:idn+extra"]},
-    "C17": {"quick": ["default", "rfc20", "rfc5322", "underscore", "rebuilt"],
-            "thorough": ["default", "rfc20", "rfc5322", "underscore", "rfc20+rfc5322", "rfc20+underscore", "rfc5322+underscore", "all3", "rebuilt"]},
+    "C17": {"quick": ["default", "rfc20", "rfc5322", "underscore", "rebuilt", "rfc5322+uchar", "rfc20+rfc5322+underscore@readme"],
+            "thorough": ["default", "rfc20", "rfc5322", "underscore", "rfc20+rfc5322", "rfc20+underscore", "rfc5322+underscore", "all3", "rebuilt", "rfc5322+uchar",
+                         "rfc20+rfc5322+underscore@readme"]},
+    "C12": {"quick": ["default", "extra"], "thorough": ["default", "extra"]},
+    "C01": {"quick": ["default"], "thorough": ["default"]},
 }
 MODES = (822, 5321, 5322, 6531)
 
@@ -527,6 +541,17 @@ def c02(ctx):
         for s, cl, sl in zip(fold, c, sp):
             if (cl == "L 0") != (sl == "sL 1"):
                 ctx.S("mode 822 decision depends on the byte after the local part", op="L 822 %s %s" % (hx(s), hx(endb)), input=repr(s), impl=cl, spec=sl)
+    # S only: a NUL is not a printable character - a local part that contains one (address passed with its true length) is never accepted, whatever
+    # stands behind the NUL
+    nuls = [b"ab\0 (<>[]@example.com", b"ab\0\x80\xff@example.com", b"a\0..b.@example.com", b'a\0"@example.com', b"a\0b@foo.de", b"\0@foo.de", b"ab\0@foo.de",
+            b'"a\0b"@foo.de', b"a.b\0c.d@[1.2.3.4]", b"a\0@b@foo.de", b"a\0\0@foo.de", b"x\0" + b"y" * 70 + b"@foo.de"]
+    for m in (822, 5321, 5322):
+        cn, _ = ctx.run("nul-in-local%d" % m, "default", ["E %d 0 %s" % (m, hx(x)) for x in nuls])
+        ctx.evals += len(nuls)
+        for x, ln in zip(nuls, cn):
+            ctx.nontrivial.add("nul%d:" % m + hx(x))
+            if fields(ln)[1] == "0":
+                ctx.S("mode %d: an address whose local part contains a NUL (passed with its true length) is accepted" % m, op="E %d 0 %s" % (m, hx(x)), input=repr(x), impl=ln)
 RULES["C02"] = "distinct (mode, local part) pairs whose result is not EEAV_LPART_EMPTY; bounded-exhaustive over a 14-class alphabet, every byte value in 130 contexts, byte pairs, folding/blank families, grammar-directed random with mutations"
 
 
@@ -675,7 +700,7 @@ def c04(ctx):
     for op, cl, li in zip(ops, c, lean_in):
         m = re.search(r" @ (-?\d+) (\S+)", li)
         if cl.startswith("U 0") and m and m.group(1) == "0" and m.group(2) != "-":
-            alabels.append((op, bytes.fromhex(m.group(2))))
+            alabels.append((op, cvhex(m.group(2))))
     sp = ctx.spec(["sD 0 %s" % hx(a) for _, a in alabels])
     for (op, a), sl in zip(alabels, sp):
         if sl != "sD 1":
@@ -752,6 +777,19 @@ def c01(ctx):
             scripts.append("i;t0;r%d;s;e%s;f;r%d;s;" % (m1, hx(probes[0]), m2) + ";".join("e" + hx(p) for p in probes) + ";f")
             scripts.append("i;t0;r%d;s;f;r%d;s;" % (m1, m2) + ";".join("e" + hx(p) for p in probes) + ";f;f")
     check_histories(ctx, "setup-after-free", scripts)
+    # an application may have called setlocale(): whole addresses with octets >= 0x80 and control octets in either half, under a UTF-8 and a
+    # single-byte process locale, must get the decisions of the "C" locale (model) in every mode
+    hb = [b"user@caf\xe9.example", b"user@\xfcber.example.org", b"user@example.\xe7om", b"caf\xe9@example.com", b'"caf\xe9"@example.com', b"a\x85b@example.com",
+          b"user@a\x85b.com", b"user@\xb5.de", b"user@[1.2.3.\xb2]", b"user@[IPv6:\xb2::1]", b"user@x\xa0.com"] + \
+         [b"u@a" + bytes([b_]) + b".com" for b_ in range(0x80, 0x100)] + [bytes([b_]) + b"@b.com" for b_ in range(0x80, 0x100, 3)]
+    for loc in ctx.locales():
+        for m in MODES:
+            cl_ = ctx.K("email%d@%s" % (m, loc["VERIF_LOCALE"]), "default", ["E %d 0 %s" % (m, hx(s_)) for s_ in hb], env=loc, nontrivial=lambda op, ln: True)
+            if m != 6531:
+                for s_, ln in zip(hb, cl_):
+                    if fields(ln)[1] == "0":
+                        ctx.S("an address with an octet >= 0x80 is accepted in an ASCII mode when the process locale is %s" % loc["VERIF_LOCALE"],
+                              op="E %d 0 %s" % (m, hx(s_)), input=repr(s_), impl=ln, locale=loc["VERIF_LOCALE"])
 RULES["C01"] = "distinct (mode, tld_check, address) triples that pass basic_email_check (not empty, has '@', non-empty halves, local part <= 64); exhaustive over a 12-class alphabet to length 4 (5 thorough), 18 local parts x 29 domains, local length 60-69 x 0-3 '@', random"
 
 
@@ -760,9 +798,9 @@ def c05(ctx):
     doms = list(dict.fromkeys(gen.literal_domains(ctx.tier, ctx.rng)))
     doms = [d for d in doms if 0 not in d]
     sp = ctx.spec(["sI %s" % hx(d) for d in doms])
-    for m in MODES:
+    for v, m in [("default", m_) for m_ in MODES] + ([("uchar", 5321), ("uchar", 6531)] if "uchar" in ctx.drives else []):
         ops = ["E %d 0 %s" % (m, hx(b"a@" + d)) for d in doms]
-        c = ctx.K("literal%d" % m, "default", ops, project=lambda op, ln: " ".join(fields(ln)[:1] + [("acc" if fields(ln)[1] == "0" else "rej")] + fields(ln)[3:4]),
+        c = ctx.K("literal%d" % m, v, ops, project=lambda op, ln: " ".join(fields(ln)[:1] + [("acc" if fields(ln)[1] == "0" else "rej")] + fields(ln)[3:4]),
                   nontrivial=lambda op, ln: True)
         for d, cl, sl in zip(doms, c, sp):
             if not d.startswith(b"["):
@@ -772,12 +810,12 @@ def c05(ctx):
             up, lo, isv4 = sl[3] == "1", sl[4] == "1", sl[5] == "1"
             op = "E %d 0 %s" % (m, hx(b"a@" + d))
             if acc and not up:
-                ctx.S("address literal accepted that is not exactly '[' IPv4 ']' or '[' [IPv6:] RFC-4291-address ']'", op=op, input=repr(d), impl=cl)
+                ctx.S("address literal accepted that is not exactly '[' IPv4 ']' or '[' [IPv6:] RFC-4291-address ']'", op=op, variant=v, input=repr(d), impl=cl)
             if lo and not acc:
-                ctx.S("RFC 5321 address literal rejected", op=op, input=repr(d), impl=cl)
+                ctx.S("RFC 5321 address literal rejected", op=op, variant=v, input=repr(d), impl=cl)
             if acc and up:
                 if (f[3] == "100") != isv4 or (f[3] == "010") != (not isv4):
-                    ctx.S("is_ipv4/is_ipv6 does not report the family of the address present", op=op, input=repr(d), impl=cl)
+                    ctx.S("is_ipv4/is_ipv6 does not report the family of the address present", op=op, variant=v, input=repr(d), impl=cl)
     # bracket contents with an embedded NUL and an explicit length covering the bytes behind it: never "exactly '[' addr ']'",
     # so never accepted (S only: the model's contract is NUL-free input)
     good = [b"1.2.3.4", b"255.255.255.255", b"IPv6:2001:db8::1", b"IPv6:::", b"IPv6:1:2:3:4:5:6:7:8", b"::1", b"1:2:3:4:5:6:1.2.3.4", b"IPv6:::ffff:1.2.3.4"]
@@ -961,6 +999,13 @@ def c08(ctx):
     resv_addrs = [b"a@example.com", b"a@www.example.net", b"a@EXAMPLE.ORG", b"a@a.b.Example.Com", b"a@x.test", b"a@localhost", b"a@x.invalid", b"a@x.onion", b"a@x.example"]
     addrs = list(dict.fromkeys(addrs + unl_addrs + resv_addrs))
     addrs = list(dict.fromkeys(addrs + [b"a@mail.RU", b"A@IANA.ORG", b"a@x.Museum", b"a@x.XN--P1AI", b"a@x.BIZ", b"a@consulting.biz", b"a@x.name", b"a@x.pro"]))
+    # names of the greatest length a host name can have (253 octets, 254 with the root dot) on listed, unlisted and reserved last labels, and short
+    # rooted names: the model's answer under every mask
+    def longest(tail):
+        r = (254 if tail.endswith(b".") else 253) - 192 - len(tail)
+        return b"a@" + b"a" * 63 + b"." + b"b" * 63 + b"." + b"c" * 63 + b"." + b"d" * r + tail
+    addrs += [longest(t_) for t_ in (b".com", b".com.", b".zz", b".zz.", b".test", b".test.", b".example.org", b".example.org.", b".museum.", b".xn--p1ai.")] + \
+             [b"a@b.com.", b"a@b.zz.", b"a@x.test.", b"a@example.com.", b"a@localhost."]
     # the policy in force is the one set before the LAST eav_setup: one long-lived object re-configured again and again
     hs = []
     hadd = [hx(x) for x in (b"a@b.com", b"a@b.ru", b"a@x.biz", b"a@example.com", b"a@nic.aero", "a@почта.рф".encode())]
@@ -1084,6 +1129,27 @@ def c09(ctx):
         for d, cl, sp_, ho in zip(nd, cn, spn, hon):
             if ho == "sD 1" and not d.endswith(b".") and (cl == "S 1") != (sp_ == "sS 1"):
                 ctx.S("in a build with -DNDEBUG a domain is classified special / not special against the reserved-name rules", op="S %s" % hx(d), variant="ndebug", impl=cl, spec=sp_)
+    # (added) a LABELS_ALLOW_UNDERSCORE build: '_' may occur in the labels further left; the reserved names are the same (direct calls and whole
+    # addresses, all four modes)
+    if "underscore" in ctx.drives:
+        ud = [d for d in doms if 0 not in d and (b"_" in d or ctx.rng.random() < (0.08 if ctx.tier == "quick" else 0.5))]
+        cu_ = ctx.K("special-underscore", "underscore", ["S %s" % hx(d) for d in ud], nontrivial=lambda op, ln: True)
+        spu = ctx.spec(["sS %s" % hx(d) for d in ud])
+        hou = ctx.spec(["sD 1 %s" % hx(d) for d in ud])
+        for d, cl, sp_, ho in zip(ud, cu_, spu, hou):
+            if ho == "sD 1" and not d.endswith(b".") and (cl == "S 1") != (sp_ == "sS 1"):
+                ctx.S("in a LABELS_ALLOW_UNDERSCORE build a host name is classified special / not special against the reserved-name rules", op="S %s" % hx(d), variant="underscore", impl=cl, spec=sp_)
+        uu = [d for d in ud if b"_" in d]
+        for m in MODES:
+            ce = ctx.K("special-underscore-email%d" % m, "underscore", ["E %d 1 %s" % (m, hx(b"a@" + d)) for d in uu], nontrivial=lambda op, ln: True)
+            spm_ = dict(zip(ud, spu)); hom_ = dict(zip(ud, hou))
+            for d, cl in zip(uu, ce):
+                f = fields(cl)
+                if "FAULT" in cl or hom_[d] != "sD 1" or d.endswith(b".") or f[1] == "-2":
+                    continue
+                if (f[1] == "8") != (spm_[d] == "sS 1"):
+                    ctx.S("LABELS_ALLOW_UNDERSCORE build: address on a reserved domain with '_' in a label further left not classified 'special' (or a non-reserved one classified so)",
+                          op="E %d 1 %s" % (m, hx(b"a@" + d)), variant="underscore", input=repr(d), impl=cl, spec=spm_[d])
 RULES["C09"] = "distinct domains: each reserved suffix and each one-edit neighbour, case patterns, preceded by 0-3 labels of lengths 1-63 (quick: 1-11, 62, 63); direct is_special_domain calls and whole addresses in four modes"
 
 
@@ -1110,7 +1176,30 @@ def c12(ctx):
                 plain.append(b"user@" + pre + big + tl)
     for pre in (b"a_b.", b"..", b"a!.", b"x..y.", b"-."):
         plain += [b"user@" + pre + gen.long_host(260), b"user@" + pre + gen.long_host(254), b"user@" + pre + gen.long_host(250)]
+    # rooted names (reserved, listed, unlisted): whatever a mode says about them, the four modes say the same
+    rooted = [b"user@example.com.", b"user@host.test.", b"user@a.invalid.", b"user@b.com.", b"user@b.zz.", b"user@localhost.", b"user@x.example.org.", b"user@mail.b.museum.",
+              b"user@EXAMPLE.NET.", b"user@a.b.c.onion.", b"user@com.", b"user@b.com.."]
+    plain += rooted
     plain = list(dict.fromkeys(plain))
+    # the same comparison in an EAV_EXTRA build (its extra code sits between the domain test and the TLD test)
+    if "extra" in ctx.drives:
+        subx = list(dict.fromkeys(rooted + plain[:: (8 if ctx.tier == "quick" else 2)]))
+        for t in (0, 1):
+            resx = {m: ctx.K("plain%d" % m, "extra", ["E %d %d %s" % (m, t, hx(s_)) for s_ in subx], nontrivial=lambda op, ln: fields(ln)[1] not in ("-3", "-16")) for m in MODES}
+            for i, s_ in enumerate(subx):
+                r = {m: fields(resx[m][i]) for m in MODES}
+                if "FAULT" in "".join(resx[m][i] for m in MODES):
+                    continue
+                if len({r[m][1] for m in (822, 5321, 5322)}) != 1 or (r[6531][1] != r[5321][1] and r[6531][1] != "-2"):
+                    ctx.S("EAV_EXTRA build: the four modes disagree (decision or code) on a quote-free pure-ASCII address", op="E 6531 %d %s" % (t, hx(s_)), variant="extra",
+                          input=repr(s_), got={k: v[1] for k, v in r.items()})
+    # one eav_t that has seen a refused eav_setup (unknown rfc value) before or after the mode was chosen: the four modes still agree, and each
+    # gives what a fresh object gives
+    hs = []
+    for m in MODES:
+        ads = ";".join("e" + hx(a_) for a_ in (b"user@iana.org", b"a.b@b.com", b"a..b@b.com", b"user@b.zz"))
+        hs += ["i;t0;r9;s;m;r%d;s;%s;m;f" % (m, ads), "i;t1;r%d;s;r9;s;m;%s;m;f" % (m, ads), "i;t0;r9;s;r9;s;r%d;s;%s;f" % (m, ads)]
+    check_histories(ctx, "refused-setup", hs)
     for t in (0, 1):
         res = {}
         for m in MODES:
@@ -1599,6 +1688,11 @@ def two_object_scripts(ctx, idn_addr):
     seqs = [(["i", "s", "e" + a, "r822", "s", "e" + p, "f"], ["i", "s", "e" + a, "m", "e" + a, "f"]),
             (["i", "s", "r5321", "s", "r6531", "s", "e" + a, "f"], ["i", "s", "e" + a, "f", "i", "r822", "s", "e" + p, "f"]),
             (["i", "r5322", "s", "e" + p, "r6531", "s", "e" + a, "f"], ["i", "s", "e" + a, "r7", "s", "m", "e" + a, "f"])]
+    # records of addresses refused before any scanning (empty, no '@', empty halves, long local part) and of ordinary ones, re-read (`v`) after the
+    # OTHER object's call: a record belongs to its object
+    e0, e1, e2, e3 = "e-", "e" + hx(b"postmaster"), "e" + hx(b"a" * 70 + b"@b.com"), "e" + hx(b"user@")
+    seqs += [(["i", "s", e0, "v", e1, "v", "e" + p, "v", "f"], ["i", "s", e1, "v", e2, "v", e0, "v", "f"]),
+             (["i", "r5321", "s", e3, "v", e0, "v", "f"], ["i", "r822", "s", "e" + p, "v", e2, "v", "f"])]
     out = []
     for x, y in seqs:
         out += interleavings(x, y, ctx.rng, 400 if ctx.tier == "quick" else 3000)
@@ -1679,6 +1773,32 @@ def c19(ctx):
                 two.append("i;s;x%d,1;e%s;m;2i;2s;2x%d,0;2e%s;2m;m;2f;m;f" % (r1, hx(a1), r2, hx(a2)))
     for v in ["default"] + [x for x in ctx.drives if x.startswith("be:")]:
         check_two_objects(ctx, "idnfault-two-objects", two, variant=v)
+    # failures the converter reports by itself (nothing injected): very long names, names it refuses for their content - whatever code it gives
+    # when asked directly (here, through ctypes) is the code and message the library must report, and nothing is treated as a domain
+    import ctypes, ctypes.util
+    lib = ctypes.CDLL(ctypes.util.find_library("idn2") or "libidn2.so.0")
+    lib.idn2_to_ascii_8z.argtypes = [ctypes.c_char_p, ctypes.POINTER(ctypes.c_void_p), ctypes.c_int]
+    lib.idn2_free.argtypes = [ctypes.c_void_p]
+    def direct_rc(d):
+        out = ctypes.c_void_p()
+        rc = lib.idn2_to_ascii_8z(d, ctypes.byref(out), 8)          # IDN2_NONTRANSITIONAL, as the library asks
+        if rc == 0 and out.value:
+            lib.idn2_free(out)
+        return rc
+    own = [b"a" * n for n in (64, 254, 255, 256, 1022, 1023, 1024, 1025, 1100, 4000)] + [(b"ab." * 2000)[:n] + b"com" for n in (252, 300, 1020, 1023, 1024, 1028, 4000)] + \
+          [("ж" * n).encode() + b".com" for n in (57, 58, 70, 300, 600)] + [("\U00010330" * 50 + ".") .encode() * k + b"com" for k in (1, 4, 5, 6, 8)] + \
+          [x.encode() for x in ("xn--a.com", "a\u200db.com", "ab--cd.com", "-a.com", "\u2665.de", "xn--.com", "a\u00ad\u00ad.\u00ad")] + [b"\xff.com", b"a\xc3.com"]
+    pops = ["P 6531 %d 760 %s" % (t_, hx(b"u@" + d_)) for d_ in own for t_ in (0, 1)]
+    pc = ctx.K("idn-own-failures", "default", pops, nontrivial=lambda op, ln: True)
+    for op_, ln in zip(pops, pc):
+        d_ = bytes.fromhex(op_.split(" ")[4])[2:]
+        rc_ = direct_rc(d_)
+        f = fields(ln)
+        if "FAULT" in ln or rc_ == 0:
+            continue
+        if f[1:4] != ["0", "2", "idn:#%d" % rc_]:
+            ctx.S("the IDN library refuses this domain with code %d when asked directly, but the address is not rejected with the IDN error and that code's message" % rc_,
+                  op=op_, domain_octets=len(d_), impl=ln, converter_rc=rc_)
 RULES["C19"] = "distinct histories with injected IDN failures: every libidn2 error code (and unknown codes) x with/without an output buffer x fault position in runs of 1-6 validations, random multi-fault histories of length 10-50 (200 thorough); LeakSanitizer at exit"
 
 
@@ -1911,6 +2031,13 @@ def idn_domains(ctx):
     # malformed: invalid UTF-8, disallowed code points, hyphen rules, long labels
     out += [b"\xff.com", b"a\xc3.com", "a‍.com".encode(), "☃☃.com".encode(), "I♥NY.de".encode(), "xn--a-.com".encode(), b"ab--cd.com", b"-a.com", b"a-.com",
             ("ж" * 64 + ".рф").encode(), ("é" * 59 + ".com").encode(), ("é" * 62 + ".com").encode(), "á.com".encode(), "ǅ.com".encode(), "Ａ.com".encode()]
+    # domains made ONLY of code points the IDNA mapping removes (the conversion succeeds with an empty name), alone and as a label
+    ign = ["\u00ad", "\u200b", "\ufe0f", "\u00ad\u200b\ufe0f", "\u2060", "\u034f", "\u180b"]
+    out += [x.encode() for x in ign] + [(x + ".com").encode() for x in ign] + [("a." + x).encode() for x in ign] + [(x + "." + x).encode() for x in ign]
+    # many four-octet characters: 700-1100 octets of UTF-8 that are at most 255 characters and 200-250 octets of A-labels
+    for ch, n in (("\U00010330", 50), ("\U00010330", 40), ("\U0001d7d8", 60), ("\U00020000", 45), ("\U00010400", 50)):
+        lab = ch * n
+        out += [".".join([lab] * k).encode() + b".com" for k in (1, 3, 4, 5, 6)]
     return list(dict.fromkeys(o for o in out if 0 not in o and b"@" not in o))
 
 
@@ -1925,7 +2052,7 @@ def c10(ctx):
     for u, li in zip(us, open(os.path.join(ctx.scr.dir, "direct_default.leanin")).read().split("\n")[1:]):
         m = re.search(r" @ (-?\d+) (\S+)", li)
         if m and m.group(1) == "0" and m.group(2) != "-":
-            direct[u] = bytes.fromhex(m.group(2))
+            direct[u] = cvhex(m.group(2))
         elif m and m.group(1) != "0":
             direct_fail[u] = m.group(1)
     for t in (0, 1):
@@ -1957,7 +2084,7 @@ def c10(ctx):
                 if fields(cl)[1] != "-2":
                     ctx.S("IDN conversion failed but the address was not rejected with the IDN error", op="E 6531 %d %s" % (t, hx(b"a@" + u)), impl=cl)
                 continue
-            a = bytes.fromhex(m.group(2)) if m.group(2) != "-" else b""
+            a = cvhex(m.group(2)) if m.group(2) != "-" else b""
             stats["converted"] += 1
             pairs.append((u, a, cl))
         aops = ["E 6531 %d %s" % (t, hx(b"a@" + a)) for _, a, _ in pairs]
@@ -1968,7 +2095,7 @@ def c10(ctx):
             fu, fa = fields(cu), fields(ca[i])
             m2 = re.search(r" @ (-?\d+) (\S+)", lean_in2[i])
             # hypothesis H_same (validated, not proved): the converter is idempotent on its own output
-            if not (m2 and m2.group(1) == "0" and bytes.fromhex(m2.group(2)) == a):
+            if not (m2 and m2.group(1) == "0" and cvhex(m2.group(2)) == a):
                 stats["alabel-not-idempotent"] += 1
                 continue
             stats["H_same-validated"] += 1
@@ -2098,7 +2225,7 @@ def c11(ctx):
     lean_in = open(os.path.join(ctx.scr.dir, "rawcsv_default.leanin")).read().split("\n")[1:]
     for r, p_, li in zip(raw, pun, lean_in):
         m_ = re.search(r" @ (-?\d+) (\S+)", li)
-        a = bytes.fromhex(m_.group(2)) if (m_ and m_.group(1) == "0" and m_.group(2) != "-") else None
+        a = cvhex(m_.group(2)) if (m_ and m_.group(1) == "0" and m_.group(2) != "-") else None
         if a != b"x." + p_:
             ctx.S("a row of data/raw.csv is not the U-label of the same row of data/punycode.csv", op="U 0 %s" % hx(b"x." + r), raw=r.decode(errors="replace"), punycode=p_.decode(), converted=repr(a))
     # no domain absent from the CSV is found: near misses and byte aliases of every row, straight into is_tld
@@ -2203,6 +2330,13 @@ def c06(ctx):
     for b0 in range(1, 256):
         edge += [bytes([b0]), bytes([b0]) + b"@b.com", b"a@" + bytes([b0]), b"a@b" + bytes([b0]), b"a" + bytes([b0]) + b"@b.com", b"a@[" + bytes([b0]) * 8 + b"]", b"a@b." + bytes([b0]) + b"c",
                  b'"' + bytes([b0]) + b'"@b.com', b"a@[1.2.3.4" + bytes([b0]), b"a@[IPv6:1::" + bytes([b0]) + b"]"]
+    # every kind of character at the very start and inside the local part, through the API in mode 6531 (a scanner that answers with an unexpected
+    # code makes eav_is_email abort); the converter corpus (names the mapping empties, refusals, long names) through the API as well
+    firstpos = []
+    for x in ("\ufeff", "\u00e9", "\u0800", "\uffff", "\U00010000", "\U0010ffff", "\u200b", "\u00ad", "\u2028", "\u0080", "\u07ff", "\ud7ff", "\ue000", "\ufffe", "\u202e"):
+        e_ = x.encode()
+        firstpos += [e_ + b"john.doe@example.org", b"jo" + e_ + b"hn@example.org", b"john" + e_ + b"@example.org", b'"' + e_ + b'"@example.org', e_ + b"@example.org", e_ + b"." + e_ + b"@b.com"]
+    edge += firstpos + [b"u@" + d for d in idn_domains(ctx)[:: (3 if ctx.tier == "quick" else 1)] if 0 not in d]
     cov_ops = []
     origK = ctx.K
     def K(name, variant, ops, **kw):
@@ -2452,6 +2586,7 @@ def c20(ctx):
     errs = errors_table()
     corpus = [s for s in diag_corpus(ctx) if 0 not in s and b"\n" not in s]
     shapes = [b'"john"smith@gmail.com', b'john."q"x@gmail.com', b'"a"b@b.com', b'"a".b@b.com', b'a."b"@b.com', b'"a" b@b.com', b'"a"\xc3\xa9@b.com', b'"a\\"b"@b.com',
+              b'"a"."b"@example.com', '"\u00e4"..b@example.com'.encode(), b'"q".@example.com', b'"a"."b".c@example.com', b'a."b"."c"@example.com', '"\u00e4"."\u00f6"@example.com'.encode(),
               b"", b" ", b"  ", b"\t", b"#comment", b"# a@b.com", b" #notcomment@b.com", b"a@b.com", b" a@b.com", b"a@b.com ", b"a@b.com\t", b" a@b.com \t", b"a@b.com  ",
               b"\xff", b"a\xff@b.com", b"\xc3", b"\xe2\x82", b"a@b.com\r", b"a\rb@c.com", b"\r", b"a@\x01.com", b"\x7f@b.com", "ж@почта.рф".encode(), "пример@почта.рф ".encode(),
               "😀@b.com".encode(), "a😀b@x.org".encode(), "\U00010000@b.com".encode(), "x\U000fffff@b.com".encode(), "\U00100000y@b.com".encode(),
@@ -2562,7 +2697,30 @@ def c20(ctx):
         k = rng.randint(2, 4)
         runs.append([None if rng.random() < 0.15 else rng.choice(small + nul_files) for _ in range(k)])
     runs += [[None], [None, b"a@b.com\n"], [b"a@b.com\n", None], [b"", b""], [b"x@y.org", b"a@b.com\n", b"x@y.org"]]
+    # lines whose domains exercise different corners of the IDN library (bogus A-labels, joiners, hyphens 3-4, mapped-away characters, refusals), two
+    # and three to a file in every order: a line is judged as it would be alone
+    il = [b"user@xn--a.com", "user@b\u200d.com".encode(), "user@\u0915\u094d\u200d\u0937.com".encode(), b"user@ab--cd.com", "user@\u00ad.com".encode(), "user@stra\u00dfe.de".encode(),
+          b"user@xn--strae-oqa.de", "user@\u2665.de".encode(), "user@\u043f\u043e\u0447\u0442\u0430.\u0440\u0444".encode(), b"user@example.com", b"user@xn--.com", "user@a\u200cb.com".encode()]
+    pairs = [[a_ + b"\n" + b_ + b"\n"] for a_ in il for b_ in il if a_ != b_]
+    if ctx.tier == "quick":
+        pairs = pairs[::2] + [[a_ + b"\n" + b_ + b"\n"] for a_ in il[:2] for b_ in il[:4] if a_ != b_]
+    runs += pairs + [[b"\n".join(il) + b"\n"], [b"\n".join(reversed(il)) + b"\n"]]
     cli_main_compare(ctx, exe, env, runs)
+    # one line of several megabytes between two ordinary ones (with the default 8 MiB stack): three verdicts, normal exit
+    for mb in ((3,) if ctx.tier == "quick" else (3, 9)):
+        fn = os.path.join(ctx.scr.dir, "cli_huge.txt")
+        open(fn, "wb").write(b"first@ok.com\n" + b"a" * (mb << 20) + b"@example.com\nlast@ok.com\n")
+        p = vlib.run_timed([exe, fn], 600, env=env)
+        ctx.evals += 1
+        ctx.nontrivial.add("huge-line:%d" % mb)
+        op = "cli %s...(one line of %d MiB)...%s" % (hx(b"first@ok.com\n"), mb, hx(b"@example.com\nlast@ok.com\n"))
+        heads = [ln[:6] for ln in p.stdout.split(b"\n") if ln[:6] in (b"PASS: ", b"FAIL: ")] if p.stdout else []
+        os.remove(fn)
+        if p.timed_out or p.returncode != 0:
+            ctx.S("the eav tool does not terminate normally on a file with a line of %d MiB (%s)" % (mb, "killed after 600 s" if p.timed_out else "exit %d" % p.returncode), op=op,
+                  stderr=(p.stderr or b"").decode(errors="replace")[-600:])
+        elif heads != [b"PASS: ", b"FAIL: ", b"PASS: "]:
+            ctx.S("a file with a line of %d MiB between two valid addresses does not get the verdicts PASS, FAIL, PASS" % mb, op=op, printed=repr(heads))
     # one verdict per line means the line's OWN verdict: the same line alone in a file gets the same PASS/FAIL as after any other line
     groups = [[b"a@x.com", b"a@x.co", b"a@x.c", b"a@x.comm"], [b"a@x.museum", b"a@x.muse", b"a@x.m"], [b"a@x.info", b"a@x.inf", b"a@x.i"], [b"a@b.org", b"a@b.or", b"a@b.o"],
               ["ж@почта.рф".encode(), "ж@почта.р".encode()], [b"a@x.xn--p1ai", b"a@x.xn--p1a", b"a@x.xn"], [b"a@x.active", b"a@x.ac", b"a@x.act", b"a@x.a"],
